@@ -213,8 +213,8 @@ PROPS["C14"] = {
     "quick": shards(4, "TestC14", 120, mode="period", floor=40) + [S("TestC14", 500, mode="single", floor=100), S("TestC14Enum", floor=200)]
              + [S("TestC14", 1, mode="poweron", floor=1, weight=3, env={"VERIF_TILEKIND": "sparse"}), S("TestC14", 1, mode="poweron", floor=1, weight=3, env={"VERIF_TILEKIND": "uniform"}),
                 S("TestC14", 1, mode="factory", floor=1, weight=3, env={"VERIF_TILEKIND": "sparse"})]
-             + [S("TestC14Enum", mode="big", floor=1, weight=2, env={"VERIF_PART": i, "VERIF_PARTS": 4}) for i in range(4)],
-    "thorough": [S("TestC14Enum", mode="big", floor=1, weight=2, env={"VERIF_PART": i, "VERIF_PARTS": 4}) for i in range(4)] + shards(6, "TestC14", 8000, mode="period", floor=2000, timeout=3400) + [S("TestC14", 20000, mode="single", floor=4000), S("TestC14Enum", floor=200, env={"VERIF_HI": 4096})]
+             + [S("TestC14Enum", mode="big", floor=1, weight=2, env={"VERIF_PART": i, "VERIF_PARTS": 4, "VERIF_NO_PRELUDE": 1}) for i in range(4)],
+    "thorough": [S("TestC14Enum", mode="big", floor=1, weight=2, env={"VERIF_PART": i, "VERIF_PARTS": 4, "VERIF_NO_PRELUDE": 1}) for i in range(4)] + shards(6, "TestC14", 8000, mode="period", floor=2000, timeout=3400) + [S("TestC14", 20000, mode="single", floor=4000), S("TestC14Enum", floor=200, env={"VERIF_HI": 4096})]
              + shards(5, "TestC14", 10, mode="poweron", floor=3, weight=2, timeout=3400) + shards(2, "TestC14", 4, mode="factory", floor=2, weight=2, timeout=3400),
     "assumptions": ["the 10^6-bit workflows cost 10-80 s per stream, so only a few tiles per run go through them"],
 }
